@@ -86,7 +86,7 @@ def oracle_case(case, out):
                         detail="score %r passes %s is_optimal %s best %r" % (float(sc), ev.passes, ev.is_optimal, best)))
     # `minimum=` (EnforceChanges) and `max_edits=` (AvoidChanges) are the documented *constraint*
     # configurations: their score measures slack and may be positive
-    if best is not None and d["kind"] not in ("change_min", "keep_edits"):
+    if best is not None and d["kind"] not in ("change_min", "keep_edits") and d.get("max_edits_percent") is None:
         if sc > best:
             out.append(dict(kind="score-above-best:%s" % d["kind"], input=case, detail="score %r best %r" % (float(sc), best)))
         met = goal_met_exact(d, s2)
